@@ -132,7 +132,7 @@ func (c *Ctx) selectionRules() {
 		for _, ci := range callsIn(ad) {
 			q := callQName(ci.Common())
 			if q == "sort.Slice" || q == "sort.SliceStable" || strings.HasPrefix(q, "slices.SortFunc") || strings.HasPrefix(q, "slices.SortStableFunc") {
-				if strings.Contains(strings.Join(leaves(ci.Common().Args[0]), ","), "p.conns") {
+				if strings.Contains(strings.Join(leaves(ci.Common().Args[0]), ","), "#0.conns") {
 					// the comparison is on the connection id
 					for _, an := range ad.AnonFuncs {
 						ids := 0
@@ -508,7 +508,7 @@ func (c *Ctx) losslessPublication() {
 		// and the message carries the new head and this connection
 		if okv {
 			lv := strings.Join(leaves(sends[0].X), ",")
-			okv = lv == "c,head"
+			okv = lv == "#0,#1"
 		}
 	}
 	// consumer side: every update taken off the channel is handed to notifySubscribers as it is.
